@@ -18,6 +18,7 @@ import (
 )
 
 type LabelExec struct {
+	EndRun  bool // set by an operation after which the model no longer describes the volume: the run ends without further checks
 	W       *drv.World
 	D       *DAG
 	M       *LabelModel
@@ -255,7 +256,7 @@ func (x *LabelExec) Apply(op drv.Op) (handled bool, v *drv.Violation, err error)
 	}
 	if x.M == nil || !x.D.Has(op.V) || x.D.Nodes[op.V].Locked {
 		switch op.Op {
-		case "ingest", "mutate", "lmerge", "cleave", "splitsv", "renumber", "nextlabel", "setnext", "setmax", "parlabel":
+		case "ingest", "mutate", "lmerge", "cleave", "splitsv", "renumber", "nextlabel", "setnext", "setmax", "parlabel", "parsplitblocks":
 			x.Skipped++
 			return true, nil, nil
 		}
@@ -390,6 +391,95 @@ func (x *LabelExec) Apply(op drv.Op) (handled bool, v *drv.Violation, err error)
 			// a merged label that is not itself a supervoxel with voxels no longer maps anywhere
 		}
 		w.Stats.Probe("label-merge")
+		return true, nil, nil
+	case "parsplitblocks":
+		// A supervoxel split and a block-level write that changes the same body's index, issued together.  The two do not
+		// commute, so nothing is predicted afterwards: the batch must complete and the server must go on serving (C20).
+		sizes := lv.SVSizes()
+		var cands []uint64
+		for sv, n := range sizes {
+			if n >= 4 {
+				cands = append(cands, sv)
+			}
+		}
+		if len(cands) == 0 || g.G[0]*g.G[1]*g.G[2] < 2 {
+			x.Skipped++
+			return true, nil, nil
+		}
+		sort.Slice(cands, func(i, j int) bool { return cands[i] < cands[j] })
+		sv := pick(r, cands)
+		set := x.M.VoxelSet(op.V, sv, true)
+		var pts [][3]int
+		for p := range set {
+			pts = append(pts, p)
+		}
+		sort.Slice(pts, func(i, j int) bool {
+			a, b := pts[i], pts[j]
+			if a[2] != b[2] {
+				return a[2] < b[2]
+			}
+			if a[1] != b[1] {
+				return a[1] < b[1]
+			}
+			return a[0] < b[0]
+		})
+		split := map[[3]int]bool{}
+		for _, p := range pts[:len(pts)/2] {
+			split[p] = true
+		}
+		st, blocks, e := w.HTTP("GET", fmt.Sprintf("%s/blocks/%d_%d_%d/%d_%d_%d?compression=blocks", x.base(op.V), g.G[0]*g.B, g.G[1]*g.B, g.G[2]*g.B, g.Origin[0]*g.B, g.Origin[1]*g.B, g.Origin[2]*g.B), nil)
+		if e != nil {
+			return true, nil, e
+		}
+		sbs := parseBlockStream(blocks)
+		if st != 200 || len(sbs) < 2 {
+			x.Skipped++
+			return true, nil, nil
+		}
+		sort.Slice(sbs, func(i, j int) bool {
+			a, b := sbs[i].c, sbs[j].c
+			if a[2] != b[2] {
+				return a[2] < b[2]
+			}
+			if a[1] != b[1] {
+				return a[1] < b[1]
+			}
+			return a[0] < b[0]
+		})
+		// the block holding the supervoxel's first voxel trades places with another block
+		want := [3]int32{int32(floorDiv(pts[0][0], g.B)), int32(floorDiv(pts[0][1], g.B)), int32(floorDiv(pts[0][2], g.B))}
+		ia := -1
+		for i := range sbs {
+			if sbs[i].c == want {
+				ia = i
+			}
+		}
+		if ia < 0 {
+			x.Skipped++
+			return true, nil, nil
+		}
+		ib := (ia + 1 + r.IntN(len(sbs)-1)) % len(sbs)
+		sbs[ia].c, sbs[ib].c = sbs[ib].c, sbs[ia].c
+		reqs := []proto.Req{
+			{Client: "c1", Kind: "http", Method: "POST", URL: fmt.Sprintf("%s/split-supervoxel/%d", x.base(op.V), sv), Body: EncodeRLEs(RunsOf(split))},
+			{Client: "c2", Kind: "http", Method: "POST", URL: x.base(op.V) + "/blocks?compression=blocks", Body: encodeBlockStream(sbs, nil)},
+		}
+		res, e := w.Batch(reqs, "barrier")
+		if e != nil {
+			return true, nil, e
+		}
+		w.Stats.Probe("concurrent-split-and-block-write")
+		if res.Wedged {
+			return true, nil, w.ClassifyWedge("a supervoxel split concurrent with a block write to the same body\n"+descReqs(reqs), res.Stacks)
+		}
+		for j, rp := range res.Resps {
+			if rp.Status == 200 {
+				w.Stats.Probe(fmt.Sprintf("concurrent-split-and-block-write-acked-%d", j+1))
+			} else if os.Getenv("VERIF_TRACE") != "" {
+				fmt.Fprintf(os.Stderr, "parsplitblocks request %d -> %d %s\n", j+1, rp.Status, trunc(rp.Body))
+			}
+		}
+		x.EndRun = true
 		return true, nil, nil
 	case "parlabel":
 		// 2-3 label operations that commute, issued concurrently and interleaved by the scheduler:
